@@ -772,7 +772,7 @@ func (e *Engine) callEffects(call *ast.CallExpr) (heap bool, maps bool) {
 	}
 	fn := e.calleeFunc(call)
 	if fn != nil {
-		if fc := e.prog.contracts[fn.FullName()]; fc != nil && !fc.inline {
+		if fc := e.prog.contracts[fn.FullName()]; fc != nil && !fc.inline && !fc.standalone {
 			if fc.modAll {
 				return true, true
 			}
